@@ -25,7 +25,7 @@ class FMesh:
 
 
 class FDisc:
-    """R(t,q)_i = c0 + c1 t + (c2 + c3 t) q_i + c4 q_i q_{i+1};  dt_i = cfl w_i (q_i >= 1/3) or cfl w_i / 2"""
+    """R(t,q)_i = c0 + c1 t + (c2 + c3 t) q_i + c4 q_i q_{i+1};  dt_i = cfl w_i (q_i >= 3337/10007) or cfl w_i / 2"""
     def __init__(self, c, w, buffered=False):
         self.c = [float(x) for x in c]; self.w = np.array(w, dtype=float); self.nelem = len(w); self.nrhs = 0
         self.buf = [np.zeros(len(w))] if buffered else None     # see RecDisc: one output reused by every call
@@ -37,7 +37,7 @@ class FDisc:
             return self.buf
         return [out]
     def calc_timestep(self, f, cfl):
-        return np.where(f.data[0] >= 1.0 / 3.0, cfl * self.w, cfl * self.w / 2)
+        return np.where(f.data[0] >= 3337.0 / 10007.0, cfl * self.w, cfl * self.w / 2)
     def all_L2average(self, r):
         return float(np.sqrt(np.mean(np.square(r[0]))))
 
@@ -68,7 +68,7 @@ def rand_problem(rng, cls, linear=False):
 EXACT_TIME = ('explicit', 'forwardeuler', 'rk2', 'implicit', 'backwardeuler', 'cranknicolson', 'trapezoidal', 'gear')   # time advanced by exact dyadic sums
 
 
-def rand_call(rng, t0, dt, first, cls=None):
+def rand_call(rng, t0, dt, first, cls=None, level=0):
     kind = 'solve' if first or rng.random() < 0.4 else 'restart'
     nst = int(rng.integers(1, 6))
     T = dt * nst * float(rng.choice([1.0, 0.9, 1.3]))
@@ -93,7 +93,9 @@ def rand_call(rng, t0, dt, first, cls=None):
     # identically by the implementation and the model, and they are a documented case (a step landing exactly on a save /
     # stop time): save and stop times on the iteration grid (multiples of 1/64) with probability 0.4
     tie = cls in EXACT_TIME and rng.random() < 0.4
-    off = 0.0 if tie else 1.0 / 1024
+    # (a later call of a history may START at a snapshot time of an earlier call, i.e. on the offset grid of that call: each
+    #  call of a history gets its own, finer offset so that start + k*dt never meets a save time of the new call)
+    off = 0.0 if tie else 1.0 / 1024 / 4 ** level
     grid = 64 if tie else 512
     ts = [float(x) if x == t0 else float(np.round(x * grid) / grid + off) for x in ts]
     ts = [x for x in ts]
@@ -160,7 +162,7 @@ def layer_driver(ctx):
         for j in range(ncalls):
             # the CFL number may change from one call to the next on the same solver object
             cj = cfl if ctx.rng.random() < 0.6 else float(ctx.rng.choice([0.5, 0.25, 1.0] if cls not in IMPLICIT else [0.5, 1.0, 2.0]))
-            cl = rand_call(ctx.rng, t0, cj * min(p['w']), j == 0, cls)
+            cl = rand_call(ctx.rng, t0, cj * min(p['w']), j == 0, cls, level=j)
             cl['cfl'] = cj
             calls.append(cl)
         hist.append(dict(p=p, cfl=cfl, t0=t0, it0=it0, calls=calls))
